@@ -17,6 +17,7 @@ coq/model/Persist.v's `save` / `load` are parameterised by.  Anything outside th
 shapes raises TranslationError and nothing is written.
 """
 import ast
+import copy
 import json
 import os
 
@@ -40,22 +41,106 @@ class Extractor:
                   'copy.deepcopy(condition.__dict__)', 'copy(condition.__dict__)', 'deepcopy(condition.__dict__)',
                   '{**condition.__dict__}', 'vars(condition).copy()', 'dict(vars(condition))'}
     ALIAS_FORMS = {'condition.__dict__', 'vars(condition)'}
+    # canonical forms after normalisation (locals renamed, single-use temporaries inlined, operands of
+    # == / != sorted, `if not c: A else: B` turned into `if c: B else: A`)
+    WRITE_TYPE = "cond_dict['condition_type'] = condition.__class__.__name__"
     REPLACE_LOOP = ("for key, value in cond_dict.items():\n    if isinstance(value, types.FunctionType):\n"
-                    "        function_source = get_source(value)\n        if function_source != '':\n"
-                    "            cond_dict[key] = function_source")
+                    "        if '' != get_source(value):\n            cond_dict[key] = get_source(value)")
+
+    # ------------------------------------------------------------------ normalisation
+    def store_counts(self, fn):
+        c = {}
+        for n in ast.walk(fn):
+            if isinstance(n, ast.Name) and isinstance(n.ctx, ast.Store):
+                c[n.id] = c.get(n.id, 0) + 1
+        return c
+
+    def pure(self, e):
+        """an expression a temporary may stand for: names, attribute chains, constants, get_source(<name>)"""
+        if isinstance(e, (ast.Name, ast.Constant)):
+            return True
+        if isinstance(e, ast.Attribute):
+            return self.pure(e.value)
+        if isinstance(e, ast.Call) and isinstance(e.func, ast.Name) and e.func.id == 'get_source' and not e.keywords:
+            return all(isinstance(a, ast.Name) for a in e.args)
+        return False
+
+    def norm_expr(self, e, rename, temps):
+        ex = self
+
+        class N(ast.NodeTransformer):
+            def visit_Name(self, n):
+                if isinstance(n.ctx, ast.Load) and n.id in temps:
+                    return copy.deepcopy(temps[n.id])
+                if n.id in rename:
+                    return ast.copy_location(ast.Name(id=rename[n.id], ctx=n.ctx), n)
+                return n
+
+            def visit_Compare(self, n):
+                self.generic_visit(n)
+                if len(n.ops) == 1 and isinstance(n.ops[0], (ast.Eq, ast.NotEq)):
+                    a, b = sorted([n.left, n.comparators[0]], key=ast.unparse)
+                    n.left, n.comparators = a, [b]
+                return n
+
+            def visit_IfExp(self, n):
+                self.generic_visit(n)
+                if isinstance(n.test, ast.UnaryOp) and isinstance(n.test.op, ast.Not):
+                    n.test, n.body, n.orelse = n.test.operand, n.orelse, n.body
+                return n
+        return N().visit(copy.deepcopy(e))
+
+    def norm_block(self, stmts, rename, temps, counts):
+        """-> list of normalised statements (ast); assignments to single-use pure temporaries are dropped"""
+        out = []
+        for s in stmts:
+            if isinstance(s, ast.Assign) and len(s.targets) == 1 and isinstance(s.targets[0], ast.Name) \
+                    and s.targets[0].id not in rename and counts.get(s.targets[0].id) == 1 and self.pure(s.value):
+                temps[s.targets[0].id] = self.norm_expr(s.value, rename, temps)
+                continue
+            if isinstance(s, ast.For):
+                r2 = dict(rename)
+                if isinstance(s.target, ast.Tuple) and len(s.target.elts) == 2 and all(isinstance(x, ast.Name) for x in s.target.elts) \
+                        and isinstance(s.iter, ast.Call) and isinstance(s.iter.func, ast.Attribute) and s.iter.func.attr == 'items':
+                    r2[s.target.elts[0].id], r2[s.target.elts[1].id] = 'key', 'value'
+                new = ast.For(target=self.norm_expr(s.target, r2, temps), iter=self.norm_expr(s.iter, r2, temps),
+                              body=self.norm_block(s.body, r2, dict(temps), counts), orelse=self.norm_block(s.orelse, r2, dict(temps), counts))
+            elif isinstance(s, ast.If):
+                test = self.norm_expr(s.test, rename, temps)
+                body, orelse = self.norm_block(s.body, rename, dict(temps), counts), self.norm_block(s.orelse, rename, dict(temps), counts)
+                if isinstance(test, ast.UnaryOp) and isinstance(test.op, ast.Not) and orelse:
+                    test, body, orelse = test.operand, orelse, body
+                new = ast.If(test=test, body=body or [ast.Pass()], orelse=orelse)
+            else:
+                new = self.norm_expr(s, rename, temps)
+            out.append(ast.fix_missing_locations(ast.copy_location(new, s)))
+        return out
 
     def get_conditions(self):
         fn = next((n for n in self.tree.body if isinstance(n, ast.FunctionDef) and n.name == 'get_conditions'), None)
         if fn is None:
             raise TranslationError(self.relpath, 0, 'C18 extractor: get_conditions not found')
-        loops = [n for n in ast.walk(fn) if isinstance(n, ast.For) and isinstance(n.target, ast.Name) and n.target.id == 'condition']
-        if len(loops) != 1 or ast.unparse(loops[0].iter) != fn.args.args[0].arg:
-            self.err(fn, 'expected exactly one `for condition in conditions:` loop')
+        if len(fn.args.args) != 1:
+            self.err(fn, 'get_conditions must take the list of conditions only')
+        loops = [n for n in ast.walk(fn) if isinstance(n, ast.For) and isinstance(n.target, ast.Name)
+                 and ast.unparse(n.iter) == fn.args.args[0].arg]
+        if len(loops) != 1:
+            self.err(fn, 'expected exactly one loop over the conditions')
         loop = loops[0]
+        counts = self.store_counts(fn)
+        # the dictionary that describes one condition: what is appended to the returned list
+        appended = [s.value.args[0].id for s in loop.body
+                    if isinstance(s, ast.Expr) and isinstance(s.value, ast.Call) and isinstance(s.value.func, ast.Attribute)
+                    and s.value.func.attr == 'append' and len(s.value.args) == 1 and isinstance(s.value.args[0], ast.Name)]
+        if len(appended) != 1:
+            self.err(loop, 'expected exactly one `<list>.append(<condition dictionary>)` in the loop')
+        rename = {loop.target.id: 'condition', appended[0]: 'cond_dict'}
         facts = {'aliased': None, 'writes_type': False, 'replaces_fun': False, 'line': loop.lineno}
-        dict_name = None
-        for s in loop.body:
-            if isinstance(s, ast.Assign) and len(s.targets) == 1 and isinstance(s.targets[0], ast.Name) and dict_name is None:
+        for s in self.norm_block(loop.body, rename, {}, counts):
+            txt = ast.unparse(s)
+            if isinstance(s, ast.Assign) and len(s.targets) == 1 and ast.unparse(s.targets[0]) == 'cond_dict':
+                if facts['aliased'] is not None:
+                    self.err(s, 'the condition dictionary is bound twice')
                 v = ast.unparse(s.value)
                 if v in self.ALIAS_FORMS:
                     facts['aliased'] = True
@@ -63,26 +148,18 @@ class Extractor:
                     facts['aliased'] = False
                 else:
                     self.err(s, f'cannot tell whether `{v}` aliases condition.__dict__')
-                dict_name = s.targets[0].id
                 facts['dict_line'] = s.lineno
-                continue
-            if dict_name is None:
+            elif facts['aliased'] is None:
                 self.err(s, 'the loop must start by binding the condition dictionary')
-            if isinstance(s, ast.Assign) and len(s.targets) == 1 and isinstance(s.targets[0], ast.Subscript) \
-                    and ast.unparse(s.targets[0].value) == dict_name:
-                if ast.unparse(s.targets[0].slice) == "'condition_type'" and ast.unparse(s.value) == 'condition.__class__.__name__':
-                    facts['writes_type'] = True
-                    continue
-                self.err(s, f'unrecognised write into the condition dictionary: {ast.unparse(s)}')
-            if isinstance(s, ast.For):
-                if ast.unparse(s).replace(dict_name, 'cond_dict') == self.REPLACE_LOOP:
-                    facts['replaces_fun'] = True
-                    continue
-                self.err(s, 'unrecognised loop over the condition dictionary')
-            if isinstance(s, ast.Expr) and isinstance(s.value, ast.Call) and ast.unparse(s.value.func).endswith('.append') \
-                    and [ast.unparse(a) for a in s.value.args] == [dict_name]:
-                continue
-            self.err(s, f'statement not accepted in get_conditions: {ast.unparse(s)[:80]}')
+            elif txt == self.WRITE_TYPE:
+                facts['writes_type'] = True
+            elif txt == self.REPLACE_LOOP:
+                facts['replaces_fun'] = True
+            elif isinstance(s, ast.Expr) and isinstance(s.value, ast.Call) and ast.unparse(s.value.func).endswith('.append') \
+                    and [ast.unparse(a) for a in s.value.args] == ['cond_dict']:
+                pass
+            else:
+                self.err(s, f'statement not accepted in get_conditions (normalised): {txt[:100]}')
         if facts['aliased'] is None:
             self.err(loop, 'no condition dictionary bound')
         return facts
@@ -97,34 +174,53 @@ class Extractor:
             raise TranslationError(self.relpath, c.lineno, f'C18 extractor: {cls}.{name} not found')
         return m
 
+    OPT_CLASS_LOOP = ("for cls in torch.optim.Optimizer.__subclasses__():\n"
+                      "    if cls.__name__ == self.optimizer.__class__.__name__:\n        optimizer_class = self.optimizer.__class__")
+
+    def local_kind(self, fn, name):
+        """canonical name of a local variable stored in the saved dictionary"""
+        stores = [n for n in ast.walk(fn) if isinstance(n, ast.Assign) and any(isinstance(t, ast.Name) and t.id == name for t in n.targets)]
+        # `v = None; for c in torch.optim.Optimizer.__subclasses__(): if <names equal>: v = self.optimizer.__class__`
+        if len(stores) == 2 and ast.unparse(stores[0].value) == 'None':
+            for loop in [n for n in ast.walk(fn) if isinstance(n, ast.For) and isinstance(n.target, ast.Name)]:
+                if stores[1] in list(ast.walk(loop)):
+                    txt = '\n'.join(ast.unparse(x) for x in self.norm_block([loop], {loop.target.id: 'cls', name: 'optimizer_class'}, {}, {}))
+                    if txt == self.OPT_CLASS_LOOP:
+                        return 'optimizer_class'
+        if len(stores) == 1 and isinstance(stores[0].value, ast.Dict) and any(
+                isinstance(c, ast.Call) and ast.unparse(c.func) == 'get_conditions' for c in ast.walk(stores[0].value)):
+            return 'diff_equation_details'
+        return name
+
     def save(self):
         fn = self.method('PretrainedSolver', 'save')
+        dumps = [n for n in ast.walk(fn) if isinstance(n, ast.Call) and ast.unparse(n.func) == 'dill.dump']
+        if not dumps:
+            self.err(fn, 'no dill.dump call in save')
+        names = {ast.unparse(c.args[0]) if c.args else None for c in dumps}
+        if len(names) != 1 or not all(c.args and isinstance(c.args[0], ast.Name) for c in dumps):
+            self.err(dumps[0], 'dill.dump must be applied to one dictionary variable')
+        dname = names.pop()
         dicts = [n for n in ast.walk(fn) if isinstance(n, ast.Assign) and len(n.targets) == 1
-                 and isinstance(n.targets[0], ast.Name) and n.targets[0].id == 'save_dict']
+                 and isinstance(n.targets[0], ast.Name) and n.targets[0].id == dname]
         if len(dicts) != 1 or not isinstance(dicts[0].value, ast.Dict):
-            self.err(fn, 'expected exactly one `save_dict = {...}` literal')
+            self.err(fn, f'expected exactly one `{dname} = {{...}}` literal')
         d = dicts[0].value
         entries = []
         for k, v in zip(d.keys, d.values):
             if not (isinstance(k, ast.Constant) and isinstance(k.value, str)):
-                self.err(d, 'save_dict key is not a string literal')
-            entries.append((k.value, ast.unparse(v)))
+                self.err(d, 'key of the saved dictionary is not a string literal')
+            entries.append((k.value, self.local_kind(fn, v.id) if isinstance(v, ast.Name) and v.id != 'self' else ast.unparse(v)))
         if len({k for k, _ in entries}) != len(entries):
-            self.err(d, 'duplicate key in save_dict')
+            self.err(d, 'duplicate key in the saved dictionary')
         for n in ast.walk(fn):      # later writes into save_dict would change what is stored
             if isinstance(n, (ast.Assign, ast.AugAssign, ast.Delete)):
                 tg = n.targets if not isinstance(n, ast.AugAssign) else [n.target]
                 for t in tg:
-                    if isinstance(t, ast.Subscript) and ast.unparse(t.value) == 'save_dict':
-                        self.err(n, 'save_dict is modified after its literal')
-            if isinstance(n, ast.Call) and ast.unparse(n.func) in ('save_dict.update', 'save_dict.pop', 'save_dict.clear', 'save_dict.setdefault'):
-                self.err(n, 'save_dict is modified after its literal')
-        dumps = [n for n in ast.walk(fn) if isinstance(n, ast.Call) and ast.unparse(n.func) == 'dill.dump']
-        if not dumps:
-            self.err(fn, 'no dill.dump call in save')
-        for c in dumps:
-            if not c.args or ast.unparse(c.args[0]) != 'save_dict':
-                self.err(c, 'dill.dump is not applied to save_dict')
+                    if isinstance(t, ast.Subscript) and ast.unparse(t.value) == dname:
+                        self.err(n, 'the saved dictionary is modified after its literal')
+            if isinstance(n, ast.Call) and ast.unparse(n.func) in tuple(f'{dname}.{m}' for m in ('update', 'pop', 'clear', 'setdefault', 'popitem')):
+                self.err(n, 'the saved dictionary is modified after its literal')
         gcs = [n for n in ast.walk(fn) if isinstance(n, ast.Call) and ast.unparse(n.func) == 'get_conditions']
         touch = {'called': bool(gcs), 'on_alias': False, 'before_dump': False}
         for c in gcs:
@@ -195,12 +291,23 @@ class Extractor:
                 return f'{e.func.id}({inner})'
         if isinstance(e, ast.Call):
             fb = self.prov(e.func, env)
-            if fb == 'file:optimizer_class' and len(e.args) == 1 and not e.keywords \
-                    and ast.unparse(e.args[0]) == 'chain.from_iterable((n.parameters() for n in nets))' and env.get('nets') == 'file:nets':
+            if fb == 'file:optimizer_class' and len(e.args) == 1 and not e.keywords and self.is_params_of(e.args[0], env, 'file:nets'):
                 return 'relinked(file:optimizer_class'
             if isinstance(e.func, ast.Name) and e.func.id == 'tuple' and len(e.args) == 1:
                 return 'tuple(' + self.prov(e.args[0], env) + ')'
         return 'expr:' + ast.unparse(e)
+
+    def is_params_of(self, e, env, prov):
+        """chain.from_iterable(n.parameters() for n in <nets>) with <nets> of the given provenance"""
+        if not (isinstance(e, ast.Call) and ast.unparse(e.func) in ('chain.from_iterable', 'itertools.chain.from_iterable')
+                and len(e.args) == 1 and not e.keywords and isinstance(e.args[0], (ast.GeneratorExp, ast.ListComp))):
+            return False
+        g = e.args[0]
+        if len(g.generators) != 1 or g.generators[0].ifs or not isinstance(g.generators[0].target, ast.Name):
+            return False
+        v = g.generators[0].target.id
+        return ast.unparse(g.elt) == f'{v}.parameters()' and isinstance(g.generators[0].iter, ast.Name) \
+            and env.get(g.generators[0].iter.id) == prov
 
     def test(self, t, env):
         """True / False / None (depends on the file)"""
@@ -227,6 +334,15 @@ class Extractor:
                 return (l == r) == pos
         return None
 
+    def solver_target(self, t, env):
+        """`<new solver>.attr` / `<new solver>.attr['k']` -> "attr" / "attr['k']" """
+        base = t
+        while isinstance(base, (ast.Attribute, ast.Subscript)):
+            base = base.value
+        if isinstance(base, ast.Name) and env.get(base.id) == 'SOLVER' and not isinstance(t, ast.Name):
+            return ast.unparse(t)[len(base.id) + 1:]
+        return None
+
     def run(self, stmts, env, out, guard):
         for s in stmts:
             if isinstance(s, ast.Expr):
@@ -237,20 +353,26 @@ class Extractor:
                     f = ast.unparse(c.func)
                     if f == 'print':
                         continue
-                    if f == 'optimizer.load_state_dict' and env.get('optimizer') == 'relinked(file:optimizer_class' and len(c.args) == 1:
-                        env['optimizer'] = env['optimizer'] + ',' + self.prov(c.args[0], env) + ')'
+                    if isinstance(c.func, ast.Attribute) and c.func.attr == 'load_state_dict' and isinstance(c.func.value, ast.Name) \
+                            and env.get(c.func.value.id) == 'relinked(file:optimizer_class' and len(c.args) == 1 and not c.keywords:
+                        env[c.func.value.id] = env[c.func.value.id] + ',' + self.prov(c.args[0], env) + ')'
                         continue
                 self.err(s, f'statement not accepted in load: {ast.unparse(s)[:80]}')
             elif isinstance(s, ast.Raise):
                 out['raises'].append(guard)
                 return 'raise'
             elif isinstance(s, ast.Return):
-                out['returns'].append(ast.unparse(s.value) if s.value else None)
+                out['returns'].append('solver' if isinstance(s.value, ast.Name) and env.get(s.value.id) == 'SOLVER'
+                                      else (ast.unparse(s.value) if s.value else None))
                 return 'return'
             elif isinstance(s, ast.With):
-                if len(s.items) == 1 and ast.unparse(s.items[0].context_expr) == "open(solution_file_path, 'rb')" \
-                        and len(s.body) == 1 and ast.unparse(s.body[0]) == 'load_dict = dill.load(file)':
-                    env['load_dict'] = 'FILE'
+                it = s.items[0] if len(s.items) == 1 else None
+                if it is not None and isinstance(it.context_expr, ast.Call) and ast.unparse(it.context_expr.func) == 'open' \
+                        and len(it.context_expr.args) == 2 and ast.unparse(it.context_expr.args[1]) == "'rb'" \
+                        and isinstance(it.optional_vars, ast.Name) and len(s.body) == 1 and isinstance(s.body[0], ast.Assign) \
+                        and len(s.body[0].targets) == 1 and isinstance(s.body[0].targets[0], ast.Name) \
+                        and ast.unparse(s.body[0].value) == f'dill.load({it.optional_vars.id})':
+                    env[s.body[0].targets[0].id] = 'FILE'
                     continue
                 self.err(s, 'unrecognised with-statement in load')
             elif isinstance(s, ast.Try):
@@ -272,8 +394,8 @@ class Extractor:
                         env[t.id] = 'SOLVER'
                     else:
                         env[t.id] = self.prov(s.value, env)
-                elif ast.unparse(t).startswith('solver.'):
-                    out['restores'].append((ast.unparse(t)[len('solver.'):], self.prov(s.value, env), s.lineno))
+                elif self.solver_target(t, env) is not None:
+                    out['restores'].append((self.solver_target(t, env), self.prov(s.value, env), s.lineno))
                 else:
                     self.err(s, f'assignment target not accepted in load: {ast.unparse(t)}')
             elif isinstance(s, ast.If):
@@ -293,6 +415,8 @@ class Extractor:
                             a = b
                         if r2 in ('raise', 'return'):
                             b = a
+                        if a is None or b is None:       # unbound on one path (that path cannot use the name)
+                            a = b = (a if b is None else b)
                         env[k] = a if a == b else f'{a}|{b}'
                     r = r1 if r1 == r2 else None
                 if r in ('raise', 'return'):
